@@ -167,6 +167,36 @@ func doFile(p *packages.Package, f *ast.File, path string) error {
 				note(&rep.Rewritten, site{"R7", relPos(fset, n.Pos()), "go func", ""})
 				rep.Counts["R7"]++
 				changed = true
+			} else if c.Index() >= 0 {
+				// go f(a, b)  ->  { hrsimF, hrsimA0, hrsimA1 := f, a, b; go func() { verifsim.Yield(site); hrsimF(hrsimA0, hrsimA1) }() }
+				// (function value and arguments are still evaluated at the go statement; constants and nil stay inline)
+				pos := relPos(fset, n.Pos())
+				var lhs, rhs []ast.Expr
+				lhs, rhs = append(lhs, ast.NewIdent("hrsimF")), append(rhs, n.Call.Fun)
+				args := make([]ast.Expr, len(n.Call.Args))
+				for i, a := range n.Call.Args {
+					tv, known := info.Types[a]
+					if !known || tv.Value != nil || tv.IsNil() {
+						args[i] = a
+						continue
+					}
+					name := fmt.Sprintf("hrsimA%d", i)
+					lhs, rhs = append(lhs, ast.NewIdent(name)), append(rhs, a)
+					args[i] = ast.NewIdent(name)
+				}
+				call := &ast.CallExpr{Fun: ast.NewIdent("hrsimF"), Args: args, Ellipsis: n.Call.Ellipsis}
+				if n.Call.Ellipsis.IsValid() {
+					call.Ellipsis = 1
+				}
+				lit := &ast.FuncLit{Type: &ast.FuncType{Params: &ast.FieldList{}}, Body: &ast.BlockStmt{List: []ast.Stmt{yieldCall(pos), &ast.ExprStmt{X: call}}}}
+				c.Replace(&ast.BlockStmt{List: []ast.Stmt{
+					&ast.AssignStmt{Lhs: lhs, Tok: token.DEFINE, Rhs: rhs},
+					&ast.GoStmt{Call: &ast.CallExpr{Fun: lit}},
+				}})
+				note(&rep.Rewritten, site{"R7", pos, "go func", ""})
+				rep.Counts["R7"]++
+				changed = true
+				return false
 			}
 		case *ast.RangeStmt:
 			t := info.TypeOf(n.X)
